@@ -174,10 +174,41 @@ def field_mutations(frame: str) -> list[str]:
     return out
 
 
+IDX_POOL = ("00", "01", "0B", "F9", "FA", "FC")
+
+
+def index_mutations(frame: str) -> list[str]:
+    """The same frame with its leading zone / domain index replaced (kept only where the code's payload regex still accepts it):
+    e.g. a controller's 3150 for FC re-addressed to zone 00, a 0008 for F9 re-addressed to FA."""
+    from ramses_tx.ramses import CODES_SCHEMA
+
+    f = frame.split(" ")
+    verb, code, pl = frame[:2], f[-3], f[-1]
+    rx = CODES_SCHEMA.get(code, {}).get(verb)
+    if not rx or pl[:2] not in IDX_POOL + ("02", "03", "04", "05", "06", "07", "08", "09", "0A", "FB", "FD"):
+        return []
+    out = []
+    for i in IDX_POOL:
+        new = i + pl[2:]
+        if i != pl[:2] and re.match(rx, new):
+            head = frame[: frame.rfind(" ")]
+            out.append(head + " " + new)
+    return out
+
+
 def single_edits(lines: list, splice_from: list[list] | None = None, fields: bool = True):
     """Yield (label, position of the edit, history) for every single edit of a history."""
     n = len(lines)
+    kinds_seen: set = set()
     for i in range(n):
+        if fields:  # index re-addressing: at the first occurrence of every (verb, code, sender type, index class) of the history
+            d, r, fr = lines[i]
+            ff = fr.split()
+            kind = (fr[:2], ff[-3], ff[-6][:2] if ff[-6] != "--:------" else ff[-4][:2], ff[-1][:1])
+            if kind not in kinds_seen:
+                kinds_seen.add(kind)
+                for k, g in enumerate(index_mutations(fr)):
+                    yield f"idx@{i}.{k}", i, lines[:i] + [(d, r, g)] + lines[i + 1 :]
         yield f"del@{i}", i, lines[:i] + lines[i + 1 :]
         yield f"dup@{i}", i, lines[: i + 1] + [lines[i]] + lines[i + 1 :]
         if i + 1 < n:
